@@ -6,4 +6,5 @@ Extraction Language OCaml.
 Extraction "c04_model.ml"
   c04_build c04_build_rank c04_unpack1 c04_join c04_spec_rank c04_spec_entry c04_sortedb
   c04_init c04_run_ops c04_is_synced c04_stale c04_ring_source c04_ring_arrivals c04_msgs
-  c04_build_mixed c04_spec_rank_mixed c04_hstep c04_hspec_step c04_obj_synced c04_obj_buildf c04_obj_ctor c04_obj_default c04_set_of c04_erase_self.
+  c04_build_mixed c04_spec_rank_mixed c04_hstep c04_hspec_step c04_obj_synced c04_obj_buildf c04_obj_ctor c04_obj_default c04_set_of c04_erase_self
+  c04_build_incs c04_obj_buildf_comm c04_comm_view c04_comm_world c04_hstepc c04_hspec_stepc c04_last_comm.
